@@ -28,7 +28,7 @@ def _mk_job(bars, emb, rng, extra_degrees=True, trailing_inf=False):
     tick_dgms = [[list(x) for x in order]]
     if extra_degrees:
         other = [[emb.f(0), emb.f(2)], [emb.f(2), emb.f(6)]]
-        pos = rng.randrange(5)
+        pos = rng.randrange(6)
         if pos == 3:    # an EMPTY diagram (a degree without classes) below the requested degree
             dgms, tick_dgms, hom = [other, [], dgm], [[[0, 2], [2, 6]], [], tick_dgms[0]], 2
         elif pos == 4:
@@ -37,12 +37,18 @@ def _mk_job(bars, emb, rng, extra_degrees=True, trailing_inf=False):
             dgms, tick_dgms, hom = [other, dgm], [[[0, 2], [2, 6]], tick_dgms[0]], 1
         elif pos == 2:
             dgms, tick_dgms, hom = [dgm, other], [tick_dgms[0], [[0, 2], [2, 6]]], 0
+        elif pos == 5 and not trailing_inf:
+            hom = rng.choice([1, 2])       # a degree the caller gave no diagram for (a lone diagram, degree 1 or 2 requested)
     return {"dgms": dgms, "hom_deg": hom}, {"dgms": tick_dgms, "hom_deg": hom}
 
 
 def _case_from_result(skel, res, emb):
     """Build the TLC case from the driver's observation."""
     c = dict(skel)
+    if skel["hom_deg"] >= len(skel["dgms"]) and not res.get("noresult") and not res.get("machinery"):
+        c.update(returned=int("cps" in res), cps=[], q=1, lattice=1, events=[], hook=0, hookfired=-1)
+        return c
+    c["returned"] = 1
     if res.get("raised") or res.get("noresult") or "cps" not in res:
         return None
     xs, ys, shape = [], [], []
@@ -102,7 +108,7 @@ def _validate(ctx, jobs, skels, embs, label, nproc=12):
     ctx.extra.setdefault("trace_validation_runs", []).append(dict(label=label, cases=len(cases), tlc_states=st["states"], wall_s=round(st["wall"], 1)))
     for c, v, i in zip(cases, verdicts, idx):
         _, _, status, clause, fired, algEv, algRes = v
-        bars = sorted(map(tuple, c["dgms"][c["hom_deg"]]))
+        bars = sorted(map(tuple, c["dgms"][c["hom_deg"]])) if c["hom_deg"] < len(c["dgms"]) else []
         nontriv = len(bars) >= 2 and any(a[1] >= b[0] and b[1] >= a[0] for ai, a in enumerate(bars) for b in bars[ai + 1:])
         ctx.count(1, key=(tuple(bars), c["hom_deg"], embs[i].name), nontrivial=nontriv)
         if fired:
